@@ -59,7 +59,7 @@ Scripted == ScriptFile # ""
 
 \* reader.go operators (Drain = the `for ok { ok = lr.send() }` loop, Split = the ideal framing).
 \* Only constant-level operators of LineReader are used; its variables are instantiated away.
-LR == INSTANCE LineReader WITH Size <- 1, MaxLen <- 0, MaxZeroReads <- 0, EmitCases <- FALSE,
+LR == INSTANCE LineReader WITH Size <- 1, MaxLen <- 0, MaxZeroReads <- 0, MaxErrReads <- 0, EmitCases <- FALSE,
                                stream <- <<>>, buf <- <<>>, cap <- 0, off <- 0, out <- <<>>,
                                chunks <- <<>>, done <- FALSE
 
